@@ -134,14 +134,16 @@ SlotsOf(ps) == {q \in 1..Len(ps) : ps[q][2] \in {"O", "W"}}
 BeforeClose(ps, q) == q < Len(ps) /\ ps[q + 1][1] \in {<<125, 125>>, <<37, 125>>}
 Inject(ps, q, ik) ==
   [r \in 1..Len(ps) |->
-     IF r = q THEN (IF ik = "illegal" THEN <<<<32, 36, 32>>, "inj1">> ELSE <<<<32, 55, 55, 32>>, "inj1">>)
+     IF r = q THEN (CASE ik = "illegal" -> <<<<32, 36, 32>>, "inj1">>
+                      [] ik = "illegalmb" -> <<<<32, 226, 130, 172, 32>>, "inj1">>          \* a 3-byte character right after white space
+                      [] OTHER -> <<<<32, 55, 55, 32>>, "inj1">>)
      ELSE IF ps[r][2] \in {"W", "O"} THEN <<<<32>>, "">> ELSE ps[r]]
 UnknownTag(ps) == [r \in 1..Len(ps) |-> IF ps[r][2] = "tag" THEN <<S2B("foo"), "inj0">>
                                        ELSE IF ps[r][2] \in {"W", "O"} THEN <<<<32>>, "">> ELSE ps[r]]
 InjectionCases ==
   { [c |-> c, q |-> q, ik |-> ik, pre |-> pre] :
-      c \in 1..NS, q \in 1..20, ik \in {"illegal", "surplus"}, pre \in 1..2 }
-InjOK(x) == LET ps == Con(x.c) IN x.q \in SlotsOf(ps) /\ (x.ik = "illegal" \/ BeforeClose(ps, x.q))
+      c \in 1..NS, q \in 1..20, ik \in {"illegal", "surplus", "illegalmb"}, pre \in 1..2 }
+InjOK(x) == LET ps == Con(x.c) IN x.q \in SlotsOf(ps) /\ (x.ik \in {"illegal", "illegalmb"} \/ BeforeClose(ps, x.q))
                                   /\ ps[1][1] \in {<<123, 123>>, <<123, 37>>}
 Prefixes == << <<>>, << PB(<<108, 49, 10, 108, 50, 10, 32, 32>>, "") >> >>      \* "l1\nl2\n  " before the construct
 
@@ -154,12 +156,12 @@ Next ==
      /\ \/ \E j \in {q \in PickedT : q % 32 = v_idx[2]} : v_idx' = <<"pos", j, 0>>
         \/ \E j \in {q \in TruncTemplates : q % 32 = v_idx[2]} : \E cut \in 0..Len(CatP(Template(j))) : v_idx' = <<"trunc", j, cut>>
         \/ /\ v_idx[2] = 0
-           /\ \/ \E x \in {y \in InjectionCases : InjOK(y)} : v_idx' = <<"inj", x.c * 1000 + x.q * 10 + (IF x.ik = "illegal" THEN 0 ELSE 1), x.pre>>
+           /\ \/ \E x \in {y \in InjectionCases : InjOK(y)} : v_idx' = <<"inj", x.c * 1000 + x.q * 10 + (CASE x.ik = "illegal" -> 0 [] x.ik = "surplus" -> 1 [] OTHER -> 2), x.pre>>
               \/ \E c \in 1..NCon : \E pre \in 1..2 : Con(c)[1][1] = <<123, 37>> /\ v_idx' = <<"tag", c, pre>>
 
 Kind == v_idx[1]
 PosPieces == Template(v_idx[2])
-InjPieces == LET c == v_idx[2] \div 1000  q == (v_idx[2] % 1000) \div 10  ik == IF v_idx[2] % 10 = 0 THEN "illegal" ELSE "surplus" IN
+InjPieces == LET c == v_idx[2] \div 1000  q == (v_idx[2] % 1000) \div 10  ik == CASE v_idx[2] % 10 = 0 -> "illegal" [] v_idx[2] % 10 = 1 -> "surplus" [] OTHER -> "illegalmb" IN
              Prefixes[v_idx[3]] \o Inject(Con(c), q, ik)
 TagPieces == Prefixes[v_idx[3]] \o UnknownTag(Con(v_idx[2]))
 InjAnchor(ps) == LET a == SelectSeq(Anchors(ps), LAMBDA x : x.kind \in {"inj0", "inj1"}) IN
